@@ -126,8 +126,18 @@ func runC36(w *World, r *Report) {
 			}
 		case *ssa.Extract:
 			return mayBeInput(x.Tuple, depth, seen)
-		case *ssa.UnOp: // load: flag.Args()[i], globals, os.Args
-			return true
+		case *ssa.UnOp: // load
+			if vals, ok := storedValues(x.X); ok {
+				for _, sv := range vals {
+					if mayBeInput(sv, depth, seen) {
+						return true
+					}
+				}
+
+				return false
+			}
+
+			return true // flag.Args()[i], globals, os.Args
 		case *ssa.Index, *ssa.Lookup, *ssa.Field:
 			return true
 		case *ssa.FreeVar:
@@ -147,7 +157,7 @@ func runC36(w *World, r *Report) {
 				return false
 			}
 
-			recv := c.Call.Args[0]
+			recv := resolveLocal(c.Call.Args[0])
 			if ct, idx := resultOf(recv); ct != nil && idx == 0 && callID(ct.Common()) == "os.CreateTemp" {
 				found = ct
 
@@ -217,7 +227,7 @@ func runC36(w *World, r *Report) {
 						onFile := false
 
 						for _, a := range callArgs(c.Common()) {
-							if t, i := resultOf(stripValue(a)); t == file && i == 0 {
+							if t, i := resultOf(resolveLocal(a)); t == file && i == 0 {
 								onFile = true
 							}
 						}
@@ -297,6 +307,25 @@ func runC36(w *World, r *Report) {
 			// remove the failure edge of CreateTemp
 			cuts := cutEdges(fn, func(f Fact) bool { return f.Kind == "nonnil" && f.V == errV && errV != nil })
 			handled := func(i ssa.Instruction) bool {
+				if d, ok := i.(*ssa.Defer); ok {
+					// a deferred call (or closure) that removes the temporary file
+					found := false
+
+					if id := callID(d.Common()); id == "os.Remove" && len(d.Call.Args) > 0 && tempFileOf(d.Call.Args[0]) == ct {
+						found = true
+					}
+
+					if cf := calleeFunction(d.Common()); cf != nil && cf.Parent() == fn {
+						allInstrs(cf, func(ci ssa.Instruction) {
+							if c, ok := ci.(*ssa.Call); ok && callID(c.Common()) == "os.Remove" && tempFileOf(c.Call.Args[0]) == ct {
+								found = true
+							}
+						})
+					}
+
+					return found
+				}
+
 				c, ok := i.(*ssa.Call)
 				if !ok {
 					return false
